@@ -277,6 +277,17 @@ def check_bound(ctx, case):
             ctx.check(failed(x) or getattr(x, attr) == v, "bounds/%s/in-range" % kind, lambda: "%s %s=%r not stored" % (how, kind, v))
         else:
             ctx.raises("bounds/%s" % kind, (ValueError,), f)
+    # a note made from an integer (or copied from another note) together with such a value: an out-of-range value is either
+    # rejected or not taken over - a note carrying it must never come out
+    if not inside:
+        for how, f in (("Note(60, %s=)" % kind, lambda: Note(60, **{kind: v})), ("Note(60, 4, {%s})" % kind, lambda: Note(60, 4, {kind: v})),
+                       ("Note(Note(), %s=)" % kind, lambda: Note(Note("G", 3), **{kind: v}))):
+            try:
+                x = f()
+            except Exception:  # noqa - rejected
+                continue
+            ctx.check(lo <= getattr(x, attr) <= hi, "bounds/%s/out-of-range-value-on-a-note" % kind,
+                      lambda: "%s with %r gives a note whose %s is %r" % (how, v, kind, getattr(x, attr)))
     ctx.note_case(not inside or v in (lo, hi), ["bound:%s:%s" % (kind, "inside" if inside else "below" if v < lo else "above")])
 
 
